@@ -108,8 +108,8 @@ PROPS["C13"] = {
                              # what a configuration handed to Reload() is made of and how the fresh server gets its routes
                              "httpserver_NewConfig", "httpserver_WithConfigCopy", "httpserver_Config_getMux", "httpserver_Config_createServer",
                              "httpserver_validateRoutes"],
-    "lean_modules": ["GoSup.Props.C13"],
-    "theorems": ["GoSup.Props.C13.routesEqual_iff", "GoSup.Props.C13.configEqual_iff", "GoSup.Props.C13.configEqual_symm",
+    "lean_modules": ["GoSup.Props.C13", "GoSup.Props.C12L"],
+    "theorems": ["GoSup.Props.C12L.c13_same_untouched", "GoSup.Props.C12L.c13_changed_fresh", "GoSup.Props.C13.routesEqual_iff", "GoSup.Props.C13.configEqual_iff", "GoSup.Props.C13.configEqual_symm",
                  "GoSup.Props.C13.c13_reload"],
     "ties": [],
     "legs": [{"name": "equal", "cmd": "equal"}, {"name": "httpsrv", "cmd": "httpsrv"}],
@@ -465,7 +465,8 @@ HTTP_RULE = ("histories on the real httpserver.Runner over loopback TCP (ephemer
              "cancel or a changed-config reload; a Stop/cancel racing an address-changing reload at 0-110 ms. Observed: server "
              "creations through the public ServerCreator hook, a probe (dial + every route) whenever Running is reported, re-binding "
              "of every address after Run returned, request outcomes and durations, the state stream of a subscriber. Oracles: "
-             "Spec.Http.holdsC12/C13/C14/C08; sequential histories are replayed on the operation-level model HttpSeq. "
+             "Spec.Http.holdsC12/C13/C14/C08; sequential histories are replayed on the operation-level model HttpSeq; every history "
+             "without a foreign listener is replayed on the concurrent model HttpLts by the trace acceptor (httpaccept). "
              "Non-trivial = at least one reload or in-flight request; distinct by the event trace.")
 PROPS["C13"]["rule"] += " " + HTTP_RULE
 for _pid, _thms, _text in [
@@ -492,6 +493,24 @@ for _pid, _thms, _text in [
         "level_note": COMMON_NOTE + "Partial by nature: wall-clock and kernel behaviour enter as assumptions and are sampled.",
         "design_ref": "DESIGN.md section 5, " + _pid,
     }
+
+# the concurrent HTTP server model (HttpLts): every interleaving of Run, Reload(), Stop(), cancellation and server events
+PROPS["C12"]["lean_modules"].append("GoSup.Props.C12L")
+PROPS["C12"]["theorems"] += ["GoSup.Props.C12L.c12_one_open_instance", "GoSup.Props.C12L.c12_released",
+                             "GoSup.Props.C12L.c12_running_serving", "GoSup.Props.C12L.c12_f1_reachable"]
+PROPS["C12"]["level_text"] = (
+    "Concurrent model HttpLts (one action per critical section of Run/boot/stopServer/shutdown/Reload, r.mutex as an owner field, "
+    "the serverCloseOnce guard, server instances created/listening/failed/closed, any number of reloads): invariant proofs over "
+    "every reachable state, i.e. every interleaving - at most one instance is open and it is the current one with the shutdown "
+    "guard unused; once Run() has returned (other than through the server-error arm) no instance is open unless an overtaken "
+    "Reload() is inside its readiness probe; while Run waits in its select, no restart is under way and the state is not Error the "
+    "current instance is listening; finding C12-F1 is a reachable state of the model. Model assumptions: the probe succeeds only "
+    "while the context is live and the awaited instance listens; an instance fails only when it binds. " + PROPS["C12"]["level_text"])
+PROPS["C12"]["assumptions"].append("HttpLts is validated against the code by the skeleton ties of the httpserver package and by the "
+                                   "trace acceptor over every history of the httpsrv leg without a foreign listener")
+PROPS["C13"]["level_text"] = PROPS["C13"].get("level_text", "") + (
+    " Concurrent model HttpLts: an equivalent configuration ends the reload without touching instance, guard or instance table "
+    "(c13_same_untouched); a changed one shuts the current instance down and boots one that did not exist before (c13_changed_fresh).")
 
 PROPS["C08"] = {
     "skeleton_fns": STATEFNS + ["finitestate_Machine_getStateChanInternal", "finitestate_Machine_GetStateChan", "finitestate_newMachine",
